@@ -49,6 +49,7 @@ class Engine(ExprMixin, StmtMixin, CallMixin, SpecMixin):
         self.feas_timeout_ms = feas_timeout_ms
         self.props = tuple(props or self.contract.props)
         self.assumption_log: set[str] = set()
+        self.loops_explored: dict = {}
         self.covered_sites: set[str] = set()
         self.path_log: list = []
 
@@ -151,6 +152,7 @@ class Engine(ExprMixin, StmtMixin, CallMixin, SpecMixin):
         fr.entry = dict(fr.locals)
         for label, expr in c.requires:
             self.assume(self.spec_bool(expr, fr, label))
+        self.base_pc = list(self.pc)
         # vacuity guard: the precondition must be satisfiable
         if not self.feasible():
             self.oblige("COVER", "requires", False, self.fn, "precondition unsatisfiable")
@@ -197,12 +199,41 @@ class Engine(ExprMixin, StmtMixin, CallMixin, SpecMixin):
     def check_frame_exit(self, fr):
         pass
 
-    def check_at(self, st, fr, what, val):
-        """`at` clauses of the contract: assertions attached to store sites (GUARD obligations)."""
+    def check_at(self, st, fr, what, val, index=None, node=None):
+        """`at` clauses of the contract: assertions attached to store / call sites (GUARD obligations).
+        pattern 'store:attr', 'store[]:attr' (optionally '@k,l': only the k-th, l-th such site in source order), 'call:rule'"""
         if fr is not self.frames[0]:
             return
         for pattern, label, expr in self.contract.at:
-            if pattern == what:
-                self.covered_sites.add("at:" + label)
-                g = self.spec_eval(expr, fr, extra={"value": val})
-                self.oblige("GUARD", f"{fr.ords.of(st, 'site')}/{label}", self.truth(g), st)
+            pat, _, ords = pattern.partition("@")
+            if pat != what:
+                continue
+            if ords:
+                k = self.site_ordinal(fr, what, node if node is not None else st)
+                if str(k) not in ords.split(","):
+                    continue
+            self.covered_sites.add("at:" + label)
+            extra = {"value": val}
+            if index is not None:
+                extra["index"] = index
+            g = self.spec_eval(expr, fr, extra=extra)
+            self.oblige("GUARD", f"{fr.ords.of(st, 'site')}/{label}", self.truth(g), st)
+
+    def site_ordinal(self, fr, what, node):
+        """ordinal of `node` among the sites of kind `what` in the function, in source order"""
+        import ast as _ast
+
+        kind, _, attr = what.partition(":")
+        sites = []
+        for n in _ast.walk(fr.fn):
+            if isinstance(n, (_ast.Assign, _ast.AugAssign)):
+                for t in (n.targets if isinstance(n, _ast.Assign) else [n.target]):
+                    if kind == "store[]" and isinstance(t, _ast.Subscript) and isinstance(t.value, _ast.Attribute) and t.value.attr == attr:
+                        sites.append(t)
+                    if kind == "store" and isinstance(t, _ast.Attribute) and t.attr == attr:
+                        sites.append(t)
+        sites.sort(key=lambda t: (t.lineno, t.col_offset))
+        for k, t in enumerate(sites):
+            if t is node or (hasattr(node, "targets") and t in getattr(node, "targets", [])) or t is getattr(node, "target", None):
+                return k
+        return -1
